@@ -236,31 +236,45 @@ def work(chunk, tier='quick'):
 
 
 def array_check(prog):
-    """(2,3)-array argument: shape kept and every element within the same component-wise allowance."""
+    """array arguments: shape kept and every regular element within the same component-wise allowance, for a
+    (2,3) array of base points and for arrays that ALSO contain the non-invertible element 0 (whose own
+    result is not judged): a regular element must not suffer from a singular neighbour."""
     from numdifftools.multicomplex import Bicomplex
-    pert = (1e-3, 1e-3, 0.4e-3)
-    xs = [x for x in BASES if in_scope(prog, x, pert)]
-    if len(xs) < 2:
-        return None
-    xs = (xs * 6)[:6]
-    x = np.array(xs).reshape(2, 3)
-    try:
-        out = lib_eval(prog, Bicomplex(x + 1j * pert[0], pert[1] * np.ones((2, 3)) + 1j * pert[2]))
-    except Exception as e:
-        return 'array call raised %s: %s' % (type(e).__name__, e)
-    if np.shape(out.z1) != (2, 3) or np.shape(out.z2) != (2, 3):
-        return 'array argument of shape (2,3) gives result of shape %r' % (np.shape(out.z1),)
     names = ['real', 'imag1', 'imag2', 'imag12']
-    for idx in np.ndindex(2, 3):
-        xi = float(x[idx])
-        got = [float(out.z1[idx].real), float(out.z1[idx].imag), float(out.z2[idx].real), float(out.z2[idx].imag)]
-        ref = reference(prog, xi, pert)
-        M = majorant(analysis(prog, xi)[0], pert, K_AN)
-        for c in range(4):
-            if not abs(got[c] - ref[c]) <= C_ALLOW * EPS * M[c]:
-                return ('element %r (x=%r) of the array call: %s component %r, holomorphic extension %r'
-                        % (idx, xi, names[c], got[c], ref[c]))
-    return ''
+    tested = False
+    for pert in ((1e-3, 1e-3, 0.4e-3), (1e-8, 1e-8, 0.0)):
+        xs = [x for x in BASES[:7] if in_scope(prog, x, pert)]
+        if len(xs) < 2:
+            continue
+        for with_zero in (False, True):
+            vals = (xs * 6)[:6]
+            judged = [True] * 6
+            if with_zero:
+                vals = [0.0] + vals[:5]
+                judged[0] = False
+            x = np.array(vals).reshape(2, 3)
+            try:
+                out = lib_eval(prog, Bicomplex(x + 1j * pert[0], pert[1] * np.ones((2, 3)) + 1j * pert[2]))
+            except Exception as e:
+                if with_zero:
+                    continue      # the program is not defined at 0: nothing is claimed for that array
+                return 'array call raised %s: %s' % (type(e).__name__, e)
+            tested = True
+            if np.shape(out.z1) != (2, 3) or np.shape(out.z2) != (2, 3):
+                return 'array argument of shape (2,3) gives result of shape %r' % (np.shape(out.z1),)
+            for flat, idx in enumerate(np.ndindex(2, 3)):
+                if not judged[flat]:
+                    continue
+                xi = float(x[idx])
+                got = [float(out.z1[idx].real), float(out.z1[idx].imag), float(out.z2[idx].real), float(out.z2[idx].imag)]
+                ref = reference(prog, xi, pert)
+                M = majorant(analysis(prog, xi)[0], pert, K_AN)
+                for c in range(4):
+                    if not abs(got[c] - ref[c]) <= C_ALLOW * EPS * M[c]:
+                        return ('element %r (x=%r) of the array call%s, perturbation %r: %s component %r, holomorphic '
+                                'extension %r' % (idx, xi, ' that also holds the singular element 0' if with_zero else '',
+                                                  pert, names[c], got[c], ref[c]))
+    return '' if tested else None
 
 
 def run(ctx):
